@@ -180,6 +180,11 @@ fn parse_template(t: &str) -> Vec<Result<String, Dir>> {
                 defines.push(arg.to_string());
                 continue;
             }
+            if kw == "census" && cur.is_none() {
+                // handled in main (needs the repository root): passed through as a marked line
+                out.push(Ok(format!("//@census {}", arg)));
+                continue;
+            }
             if kw == "extract" {
                 if cur.is_some() {
                     die("template", &format!("line {}: nested //@extract", ln + 1));
@@ -1204,6 +1209,45 @@ fn json_str(s: &str) -> String {
     serde_json::to_string(s).unwrap()
 }
 
+fn census(path: &str, word: &str) -> usize {
+    let p = std::path::Path::new(path);
+    let mut n = 0;
+    if p.is_dir() {
+        if p.file_name().map(|f| f == "tests" || f == "target").unwrap_or(false) {
+            return 0;
+        }
+        let mut entries: Vec<_> = std::fs::read_dir(p).unwrap_or_else(|e| die("anchor-lost", &format!("{}: {}", path, e))).filter_map(|e| e.ok()).collect();
+        entries.sort_by_key(|e| e.path());
+        for e in entries {
+            n += census(e.path().to_str().unwrap(), word);
+        }
+        return n;
+    }
+    if !path.ends_with(".rs") {
+        return 0;
+    }
+    let s = std::fs::read_to_string(p).unwrap_or_else(|e| die("anchor-lost", &format!("{}: {}", path, e)));
+    for line in s.lines() {
+        let code = match line.find("//") {
+            Some(i) => &line[..i],
+            None => line,
+        };
+        let b = code.as_bytes();
+        let mut from = 0;
+        while let Some(i) = code[from..].find(word) {
+            let st = from + i;
+            let en = st + word.len();
+            let before_ok = st == 0 || !(b[st - 1].is_ascii_alphanumeric() || b[st - 1] == b'_');
+            let after_ok = en >= b.len() || !(b[en].is_ascii_alphanumeric() || b[en] == b'_');
+            if before_ok && after_ok {
+                n += 1;
+            }
+            from = en;
+        }
+    }
+    n
+}
+
 fn main() {
     let args: Vec<String> = std::env::args().collect();
     if args.len() != 5 {
@@ -1219,6 +1263,23 @@ fn main() {
     for p in parts {
         match p {
             Ok(line) => {
+                if let Some(arg) = line.strip_prefix("//@census ") {
+                    // R29 `//@census <file|dir> "<word>" <n>`: the word occurs exactly n times (whole word, `//` comments and
+                    // `tests` directories left out) in the file / in the .rs files below the directory.  Pins "these are all
+                    // the places that mention X" mechanically: any other count stops the run (anchor lost), never an alarm.
+                    let (path, rest) = arg.split_once(' ').unwrap_or_else(|| die("template", "census <path> \"word\" <n>"));
+                    let rest = rest.trim();
+                    let q1 = rest.find('"').unwrap_or_else(|| die("template", "census: quoted word"));
+                    let q2 = rest[q1 + 1..].find('"').unwrap_or_else(|| die("template", "census: quoted word")) + q1 + 1;
+                    let word = &rest[q1 + 1..q2];
+                    let want: usize = rest[q2 + 1..].trim().parse().unwrap_or_else(|_| die("template", "census: count"));
+                    let got = census(&format!("{}/{}", repo, path), word);
+                    if got != want {
+                        die("anchor-lost", &format!("census: `{}` occurs {} times under {} (the unit was written for {})", word, got, path, want));
+                    }
+                    let _ = writeln!(out, "// ---- census: `{}` occurs {} times under {} (checked)", word, got, path);
+                    continue;
+                }
                 out.push_str(&line);
                 out.push('\n');
             }
